@@ -311,6 +311,29 @@ def lookup_fault_cases(shard, nshards, acts=("error",)):
                                     [0.001], 13, 2.0)
 
 
+def unknown_sibling_cases(shard, nshards):
+    """Three partitions of one topic led by three brokers, so that their lookups share one OffsetFetch: the coordinator does not know
+    partition 1 (UNKNOWN_TOPIC_OR_PARTITION, nothing committed for it) and lists it first; the judged partition 0 has
+    its committed offset in the same reply and must start there whatever the policy."""
+    i = 0
+    for g in GRID:
+        if g[3] not in ("assign_group", "subscribe_group") or g[0] == "absent" or g[1] == "none":
+            continue
+        for k in (0, 1):
+            i += 1
+            if i % nshards != shard:
+                continue
+            case = make_case(g, False, 0.0, 0.6, [{"sel": "offset_fetch", "k": k, "act": "unknown_partition", "code": 3,
+                                                  "topic": "t0", "partition": 1}], [0.001], 19, 2.0)
+            case["cluster"]["nodes"] = 3          # one leader each: the three position lookups start together
+            case["logs"][0]["nparts"] = 3
+            for p in (1, 2):
+                case["logs"].append({"topic": "t0", "nparts": 3, "partition": p, "log_start": 0,
+                                     "batches": [dict(SPEC_DATA), dict(SPEC_DATA)]})
+            case["committed"]["t0:2"] = 2
+            yield case
+
+
 LATE_TIMES = [0.03, 0.06, 0.1, 0.15, 0.2, 0.25, 0.3, 0.34, 0.4, 0.5]
 
 
@@ -375,6 +398,7 @@ def campaigns(tier):
                      else (lambda s, n: lookup_fault_cases(s, n))),
             Campaign("late_leader", "enum", execute=execute, setup=CS.setup, exhaustive=True,
                      cases=(lambda s, n: late_leader_cases(s, n, 1)) if th else (lambda s, n: late_leader_cases(s, n, 2))),
+            Campaign("unknown_sibling", "enum", execute=execute, setup=CS.setup, exhaustive=True, cases=unknown_sibling_cases),
             Campaign("reassigned", "enum", execute=execute, setup=CS.setup, exhaustive=True, cases=reassigned_cases),
             Campaign("start_sim", "hyp", execute=execute, strategy=strategy,
                      examples=20000 if th else 1000, setup=CS.setup, max_wall=900 if th else 80, shrink_wall=30)]
